@@ -2,7 +2,8 @@
 
 (A) TLC on Refs.tla (a copy of the lane machine of Lane.tla extended with os_obj_xref_cnt / os_obj_ref_cnt, client
     retain / release, the last release racing push / wakeup / drain / resume / sync hand-off / redirection, a child
-    targeting the lane, set_context, dispose, finalizer, queue-specific destructor, use-after-dispose ghost and the
+    targeting the lane, the legacy retarget of the active lane to a queue the application then drops (R8), set_context,
+    dispose, finalizer, queue-specific destructor, use-after-dispose ghost and the
     reference ledger of RefsWord.tla): all interleavings of the configurations in MCRefs.tla, safety + liveness
     (eventually disposed and finalised), + 4 spec mutants that must be refuted.
 (B) code -> spec: seeded random histories on the real library (harness/drv_refs.c: queues 1-2 levels deep, sources,
@@ -18,15 +19,16 @@ from vlib import *
 
 PROP = "C17"
 INVS = ("AtMostOnce NoStrand NoCrash NoClientCrash NoDisposeWhileBusy NoUseAfterDispose DisposeOnlyAtMinusOne "
-        "Conservation LedgerRest PushHoldsRef ParkedOK FinalizerOK NoLeak")
+        "Conservation LedgerRest PushHoldsRef ParkedOK FinalizerOK NoLeak NoDisposeWhileTargeted TqNoLeak")
 # the property as stated, without the ledger (used to show that a mutant breaks the PROPERTY, not just the bookkeeping)
-PROP_INVS = "AtMostOnce NoCrash NoDisposeWhileBusy NoUseAfterDispose DisposeOnlyAtMinusOne FinalizerOK NoLeak"
+PROP_INVS = "AtMostOnce NoCrash NoDisposeWhileBusy NoUseAfterDispose DisposeOnlyAtMinusOne FinalizerOK NoLeak NoDisposeWhileTargeted TqNoLeak"
 CONFIGS = {"R1": dict(W=1), "R1b": dict(W=1), "R2": dict(W=1), "R3": dict(W=1), "R4": dict(W=2), "R5": dict(W=1, child=True),
-           "R6": dict(W=1, inactive=True), "R7": dict(W=1), "R4t": dict(W=2)}
-QUICK = ["R1", "R1b", "R2", "R5", "R6"]
+           "R6": dict(W=1, inactive=True), "R7": dict(W=1), "R4t": dict(W=2), "R8": dict(W=1)}
+QUICK = ["R1", "R1b", "R2", "R5", "R6", "R8"]
 THOROUGH = QUICK + ["R3", "R4", "R7"]
 MUTANTS = [("R1b", "push_late_retain", PROP_INVS), ("R1", "wakeup_forgets_release", PROP_INVS),
-           ("R1", "fin_on_xref_drop", PROP_INVS), ("R1", "xref_dispose_frees", PROP_INVS)]
+           ("R1", "fin_on_xref_drop", PROP_INVS), ("R1", "xref_dispose_frees", PROP_INVS),
+           ("R8", "retarget_retains_late", "NoDisposeWhileTargeted")]
 
 
 def refs_cfg(name, mut="none", invs=INVS, live=True):
@@ -168,8 +170,12 @@ def drive(v, tier, seed):
         if os.path.exists(tr):
             os.unlink(tr)
         steer = i % 2      # odd runs: the hand-over of a client's last reference to a block is stalled at the push's +2
-        rc, out, err = sh([drv, tr, str(s), str(perturb), str(execs), str(ops), hex(mask), "90", str(steer)], timeout=1200)
-        return dict(i=i, s=s, tr=tr, rc=rc, err=err, desc="seed=%d perturb=%d mask=%s steer=%d" % (s, perturb, hex(mask), steer))
+        # every 4th run: all queue executions are the legacy-retarget variant (dispatch_set_target_queue on the active,
+        # idle / suspended / busy queue, the application dropping the new target right after the call)
+        legacy = 1 if i % 4 == 3 else 0
+        rc, out, err = sh([drv, tr, str(s), str(perturb), str(execs), str(ops), hex(mask), "90", str(steer), str(legacy)], timeout=1200)
+        return dict(i=i, s=s, tr=tr, rc=rc, err=err,
+                    desc="seed=%d perturb=%d mask=%s steer=%d legacy=%d" % (s, perturb, hex(mask), steer, legacy))
 
     with cf.ThreadPoolExecutor(max_workers=4) as ex:
         runs = list(ex.map(one, plan))
@@ -253,7 +259,7 @@ def sanitize(v, tier, seed):
     def one(i):
         s = seed * 1000 + 500 + i
         tr = os.path.join(d, "asan_%d.ndjson" % i)
-        rc, out, err = sh([drv, tr, str(s), str([2, 3, 1][i % 3]), "12", "16", hex(0x1f if i % 3 == 2 else 0x01), "150", "1"], timeout=1800, env=env)
+        rc, out, err = sh([drv, tr, str(s), str([2, 3, 1][i % 3]), "12", "16", hex(0x1f if i % 3 == 2 else 0x01), "150", "1", str(1 if i % 4 == 3 else 0)], timeout=1800, env=env)
         return i, s, tr, rc, err
 
     with cf.ThreadPoolExecutor(max_workers=3) as ex:
